@@ -14,6 +14,7 @@ package simrt
 import (
 	"fmt"
 	"runtime/debug"
+	"strconv"
 	"unsafe"
 )
 
@@ -633,7 +634,7 @@ func (s *Sim) handle(r request) {
 		c := r.child
 		c.id = len(s.tasks)
 		if c.name == "" {
-			c.name = fmt.Sprintf("go@%d", c.spawnSite)
+			c.name = "go@" + strconv.Itoa(c.spawnSite)
 		}
 		c.lastSite = c.spawnSite
 		s.tasks = append(s.tasks, c)
